@@ -641,11 +641,21 @@ def bounds_for(c: dict, defaults: list) -> list:
         n = jsize(v)
         if n is not None:
             chars = len(json.dumps(v, ensure_ascii=False))
-            cands |= {n - 1, n, n + 1, chars, chars - 1}
+            cands |= {n - 1, n, n + 1, chars, chars - 1, 2 * chars, 3 * chars, 3 * chars + 1, (3 * chars + n) // 2}
     return sorted(x for x in cands if x > 0)
 
 
 def size_cases(r: random.Random, n: int, defaults: list):
+    # text outside the Basic Multilingual Plane (4 UTF-8 bytes per character): every bound between 3·chars and the real size
+    for k, count in enumerate((3, 11, 40)):
+        env = {"\U0001f511\U0001f511": "\U0001f600" * count, "x": {"\U00010348": ["\U0001f680" * (count // 2 + 1)]}}
+        cfg = {**BASE_CFG, "as_json": k % 2 == 0, "in_place": False}
+        base = {"kind": "logger", "cfg": cfg, "payload": {"decision": "permit", "allowed": True, "env": env}, "draw": 0.5, "secrets": []}
+        base["py_covered"] = py_covered(env, [], {})
+        size = jsize(env)
+        chars = len(json.dumps(env, ensure_ascii=False))
+        for b in sorted(set(range(3 * chars - 2, 3 * chars + 3)) | set(range(size - 3, size + 3)) | {(3 * chars + size) // 2, 2 * chars, chars}):
+            yield {**base, "cfg": {**cfg, "max_env_bytes": b}, "label": f"astral#{k}/{b}"}
     for i in range(n):
         pl = Planter(r.randrange(0, 50))
         env = gen_env(r, pl)
